@@ -81,7 +81,7 @@ COMMON = "with allowCollisions True, with requireVisible False"
 
 def plan(tier, seed):
     n = 16 if tier == "quick" else 64
-    progs = 22 if tier == "quick" else 90
+    progs = 40 if tier == "quick" else 160
     return [{"shard": i, "programs": progs, "timeout": 1500 if tier == "quick" else 3000} for i in range(n)]
 
 
@@ -1181,7 +1181,7 @@ def make_program(seed, shard, index, tier, only_case=None):
 
     rng = random.Random((seed * 1000003 + shard) * 7919 + index)
     mode = "2d" if rng.random() < 0.2 else "3d"
-    randomized = rng.random() < 0.4
+    randomized = rng.random() < 0.25
     cx = Ctx(rng, mode, randomized)
     build_world(cx, tilt_small=True if rng.random() < 0.35 else False)
     cx.tilt_small = None
@@ -1193,11 +1193,7 @@ def make_program(seed, shard, index, tier, only_case=None):
         kind, sig, chk = g(cx)
         body = cx.lines[first:]
         del cx.lines[first:]
-        cx.lines.append("try:")
-        cx.lines.extend("    " + ln for ln in body)
-        cx.lines.append("except Exception as e_:")
-        cx.lines.append(f"    V.LOG.append(({cx.k}, type(e_).__name__, str(e_)))")
-        cx.cases.append((kind, sig, first, len(cx.lines), chk, cx.k))
+        cx.cases.append((kind, sig, body, chk, cx.k))
     return cx
 
 
@@ -1241,59 +1237,85 @@ def classify(kind, sig, msg):
     return None
 
 
+def assemble(cx, active):
+    lines = list(cx.lines)
+    owner = {}
+    for c in active:
+        for ln in c[2]:
+            lines.append(ln)
+            owner[len(lines)] = c  # 1-based line number
+    return "\n".join(lines) + "\n", owner
+
+
+def failing_line(e):
+    tb = e.__traceback__
+    ln = None
+    while tb is not None:
+        if tb.tb_frame.f_code.co_filename == "<string>":
+            ln = tb.tb_lineno
+        tb = tb.tb_next
+    if ln is None and isinstance(e, SyntaxError) and e.filename == "<string>":
+        ln = e.lineno
+    return ln
+
+
 def run_program(cx, res, bump, wit, isolate=True):
     """Compile + sample the program, run all checkers."""
     from rt import su
 
-    src = "\n".join(cx.lines) + "\n"
-    su.script.LOG.clear()
-    try:
-        scenario = su.compile_scenic(src, mode2D=(cx.mode == "2d"))
-        scene, _ = scenario.generate(maxIterations=200, verbosity=0)
-    except Exception as e:
-        bump("program_errors")
-        if not isolate:
-            return [{"key": None, "what": f"front end raised {type(e).__name__}: {str(e)[:200]}", "witness": dict(wit, program=src)}]
-        # find the offending case: world + each case alone
-        nworld = cx.cases[0][2] if cx.cases else len(cx.lines)
-        viols = []
-        for kind, sig, a, b, chk, k in cx.cases:
-            sub = "\n".join(cx.lines[:nworld] + cx.lines[a:b]) + "\n"
-            try:
-                sc = su.compile_scenic(sub, mode2D=(cx.mode == "2d"))
-                sc.generate(maxIterations=200, verbosity=0)
-            except Exception as e2:
-                viols.append(
-                    {
-                        "key": classify_error(cx, sig, type(e2).__name__, str(e2)),
-                        "what": f"[{cx.mode}] {sig}: documented form raised {type(e2).__name__}: {str(e2)[:160]} :: {' / '.join(cx.lines[a:b])[:300]}",
-                        "witness": dict(wit, case=k, sig=sig, program=sub),
-                    }
-                )
-        if not viols:
-            viols.append({"key": None, "what": f"program failed as a whole: {type(e).__name__}: {str(e)[:200]}", "witness": dict(wit, program=src)})
+    active = list(cx.cases)
+    viols = []
+    scene = None
+    mode2D = cx.mode == "2d"
+    tag = f"[{cx.mode}{',randomized' if cx.randomized else ''}]"
+
+    def err_violation(c, e, src):
+        kind, sig, body, chk, k = c
+        bump("cases_raising")
+        res["evaluations"] += 1
+        return {
+            "key": classify_error(cx, sig, type(e).__name__, str(e)),
+            "what": f"{tag} {sig}: documented form raised {type(e).__name__}: {str(e)[:160]} :: {' / '.join(body)[:300]}",
+            "witness": dict(wit, case=k, sig=sig, program=src),
+        }
+
+    for attempt in range(12):
+        src, owner = assemble(cx, active)
+        try:
+            scenario = su.compile_scenic(src, mode2D=mode2D)
+            scene, _ = scenario.generate(maxIterations=200, verbosity=0)
+            break
+        except Exception as e:
+            bump("program_errors")
+            ln = failing_line(e)
+            c = owner.get(ln)
+            if c is not None:
+                viols.append(err_violation(c, e, src))
+                active = [x for x in active if x is not c]
+                continue
+            # no line information (sampling-time failure): try every case on its own
+            bad = []
+            for c in active:
+                sub, _ = assemble(cx, [c])
+                try:
+                    su.compile_scenic(sub, mode2D=mode2D).generate(maxIterations=200, verbosity=0)
+                except Exception as e2:
+                    bad.append(c)
+                    viols.append(err_violation(c, e2, sub))
+            if not bad:
+                viols.append({"key": None, "what": f"{tag} program failed as a whole: {type(e).__name__}: {str(e)[:200]}", "witness": dict(wit, program=src)})
+                return viols
+            active = [x for x in active if x not in bad]
+    if scene is None:
+        viols.append({"key": None, "what": f"{tag} program still failing after removing 12 cases", "witness": dict(wit, program=src)})
         return viols
     bump("programs_sampled")
     sv = SceneView(cx, scene)
-    viols = []
     n, wout = world_checks(cx, sv)
     bump("world_checks", n)
     for name, msg in wout:
-        viols.append({"key": None, "what": f"[{cx.mode}] world: {msg}", "witness": dict(wit, case="world", program=src)})
-    errors = {e[0]: e for e in su.script.LOG}
-    for kind, sig, a, b, chk, k in cx.cases:
-        if k in errors:
-            _, ename, emsg = errors[k]
-            bump("cases_raising")
-            res["evaluations"] += 1
-            viols.append(
-                {
-                    "key": classify_error(cx, sig, ename, emsg),
-                    "what": f"[{cx.mode}{',randomized' if cx.randomized else ''}] {sig}: documented form raised {ename}: {emsg[:160]} :: {' / '.join(x.strip() for x in cx.lines[a + 1 : b - 2])[:300]}",
-                    "witness": dict(wit, case=k, sig=sig, program=src),
-                }
-            )
-            continue
+        viols.append({"key": None, "what": f"{tag} world: {msg}", "witness": dict(wit, case="world", program=src)})
+    for kind, sig, body, chk, k in active:
         try:
             out = chk(sv)
         except Exception as e:  # reading back failed
@@ -1308,9 +1330,7 @@ def run_program(cx, res, bump, wit, isolate=True):
         if cx.randomized:
             bump("randomized_world_cases")
         res["_sigs"].add(sig + "." + cx.mode)
-        from rt import su as _su
-
-        res["nontrivial"].append(_su.h([wit["seed"], wit["shard"], wit["index"], k]))
+        res["nontrivial"].append(su.h([wit["seed"], wit["shard"], wit["index"], k]))
         for msg in out:
             key = None
             if isinstance(msg, tuple):
@@ -1318,7 +1338,7 @@ def run_program(cx, res, bump, wit, isolate=True):
             viols.append(
                 {
                     "key": key,
-                    "what": f"[{cx.mode}] {sig}: {msg} :: {' / '.join(x.strip() for x in cx.lines[a + 1 : b - 2])[:400]}",
+                    "what": f"{tag} {sig}: {msg} :: {' / '.join(body)[:400]}",
                     "witness": dict(wit, case=k, sig=sig, program=src),
                 }
             )
@@ -1455,7 +1475,7 @@ def run_shard(spec):
                 res["violations"].append(v)
             bump("discrepancies")
         if index == 0 and spec["shard"] < 3:
-            res["samples"].append({"mode": cx.mode, "randomized_world": cx.randomized, "program": "\n".join(cx.lines[:14]) + "\n..."})
+            res["samples"].append({"mode": cx.mode, "randomized_world": cx.randomized, "program": assemble(cx, cx.cases[:6])[0] + "..."})
     rng = random.Random(spec["seed"] * 31 + spec["shard"] + 5)
     for v in algebra_cases(rng, 60 if tier == "quick" else 250, res, bump):
         sig = (v["key"], v["what"][:50])
